@@ -45,11 +45,11 @@ func scLimbs(prefix string, n int) Z {
 func scLimbBounds(prefix string, n, topBits int) {
 	for i := 0; i < n; i++ {
 		v := cutI64(prefix + limbName(i))
-		assert(v >= 0, "limb >= 0")
+		vassert(v >= 0, "limb >= 0")
 		if i < n-1 {
-			assert(v < 1<<21, "limb < 2^21")
+			vassert(v < 1<<21, "limb < 2^21")
 		} else {
-			assert(v < 1<<uint(topBits), "top limb bound")
+			vassert(v < 1<<uint(topBits), "top limb bound")
 		}
 	}
 }
@@ -59,9 +59,9 @@ func HarnessScLoad2() { // scAdd / scSub: operands a, c
 	a, c := scSym32(), scSym32()
 	var s [32]byte
 	scAdd(&s, a, c)
-	reach("after loads")
-	assert(zEq(scLimbs("a", 12), scLE(a[:])), "limbs(a) == LE(a)")
-	assert(zEq(scLimbs("c", 12), scLE(c[:])), "limbs(c) == LE(c)")
+	vreach("after loads")
+	vassert(zEq(scLimbs("a", 12), scLE(a[:])), "limbs(a) == LE(a)")
+	vassert(zEq(scLimbs("c", 12), scLE(c[:])), "limbs(c) == LE(c)")
 	scLimbBounds("a", 12, 25)
 	scLimbBounds("c", 12, 25)
 }
@@ -69,9 +69,9 @@ func HarnessScSubLoad() {
 	a, c := scSym32(), scSym32()
 	var s [32]byte
 	scSub(&s, a, c)
-	reach("after loads")
-	assert(zEq(scLimbs("a", 12), scLE(a[:])), "limbs(a) == LE(a)")
-	assert(zEq(scLimbs("c", 12), scLE(c[:])), "limbs(c) == LE(c)")
+	vreach("after loads")
+	vassert(zEq(scLimbs("a", 12), scLE(a[:])), "limbs(a) == LE(a)")
+	vassert(zEq(scLimbs("c", 12), scLE(c[:])), "limbs(c) == LE(c)")
 	scLimbBounds("a", 12, 25)
 	scLimbBounds("c", 12, 25)
 }
@@ -79,9 +79,9 @@ func HarnessScMulLoad() {
 	a, b := scSym32(), scSym32()
 	var s [32]byte
 	scMul(&s, a, b)
-	reach("after loads")
-	assert(zEq(scLimbs("a", 12), scLE(a[:])), "limbs(a) == LE(a)")
-	assert(zEq(scLimbs("b", 12), scLE(b[:])), "limbs(b) == LE(b)")
+	vreach("after loads")
+	vassert(zEq(scLimbs("a", 12), scLE(a[:])), "limbs(a) == LE(a)")
+	vassert(zEq(scLimbs("b", 12), scLE(b[:])), "limbs(b) == LE(b)")
 	scLimbBounds("a", 12, 25)
 	scLimbBounds("b", 12, 25)
 }
@@ -89,10 +89,10 @@ func HarnessScMulAddLoad() {
 	a, b, c := scSym32(), scSym32(), scSym32()
 	var s [32]byte
 	scMulAdd(&s, a, b, c)
-	reach("after loads")
-	assert(zEq(scLimbs("a", 12), scLE(a[:])), "limbs(a) == LE(a)")
-	assert(zEq(scLimbs("b", 12), scLE(b[:])), "limbs(b) == LE(b)")
-	assert(zEq(scLimbs("c", 12), scLE(c[:])), "limbs(c) == LE(c)")
+	vreach("after loads")
+	vassert(zEq(scLimbs("a", 12), scLE(a[:])), "limbs(a) == LE(a)")
+	vassert(zEq(scLimbs("b", 12), scLE(b[:])), "limbs(b) == LE(b)")
+	vassert(zEq(scLimbs("c", 12), scLE(c[:])), "limbs(c) == LE(c)")
 	scLimbBounds("a", 12, 25)
 	scLimbBounds("b", 12, 25)
 	scLimbBounds("c", 12, 25)
@@ -104,18 +104,18 @@ func HarnessScReduceLoad() {
 	}
 	var out [32]byte
 	scReduce(&out, &in)
-	reach("after loads")
-	assert(zEq(scLimbs("s", 24), scLE(in[:])), "limbs(s) == LE(s) (512 bits)")
+	vreach("after loads")
+	vassert(zEq(scLimbs("s", 24), scLE(in[:])), "limbs(s) == LE(s) (512 bits)")
 	scLimbBounds("s", 24, 29)
 }
 
 // ---- Core pieces (int): inputs are irrelevant (limbs are havocked at the first cut)
 func scCoreClaims(in Z) {
 	out := scLimbs("s", 12)
-	reach("before stores")
-	assert(zCongruent(out, in, lStr), "core: sum(s_i 2^21i) == op(inputs) mod l")
-	assert(zLeConst(out, lm1Str), "core: result < l (canonical)")
-	assert(zGeConst(out, "0"), "core: result >= 0")
+	vreach("before stores")
+	vassert(zCongruent(out, in, lStr), "core: sum(s_i 2^21i) == op(inputs) mod l")
+	vassert(zLeConst(out, lm1Str), "core: result < l (canonical)")
+	vassert(zGeConst(out, "0"), "core: result >= 0")
 	scLimbBounds("s", 12, 25)
 }
 func HarnessScAddCore() {
@@ -148,8 +148,8 @@ func HarnessScReduceCore() {
 
 // ---- Pack pieces (bv): limbs havocked just before the stores
 func scPackClaim(s []byte) {
-	reach("after stores")
-	assert(zEq(scLE(s), scLimbs("s", 12)), "pack: LE(bytes) == sum(s_i 2^21i)")
+	vreach("after stores")
+	vassert(zEq(scLE(s), scLimbs("s", 12)), "pack: LE(bytes) == sum(s_i 2^21i)")
 }
 func HarnessScAddPack() {
 	var s, a, c [32]byte
@@ -190,12 +190,12 @@ func scReplayBytes(nlimbs, nbytes int) []byte {
 	for i := 0; i < len(b) && i < nbytes; i++ {
 		out[i] = b[len(b)-1-i]
 	}
-	assume(len(b) <= nbytes)
+	vassume(len(b) <= nbytes)
 	return out
 }
 func scReplayCheck(got []byte, want Z) {
-	assert(zCongruent(scLE(got), want, lStr), "core: sum(s_i 2^21i) == op(inputs) mod l")
-	assert(zLeConst(scLE(got), lm1Str), "core: result < l (canonical)")
+	vassert(zCongruent(scLE(got), want, lStr), "core: sum(s_i 2^21i) == op(inputs) mod l")
+	vassert(zLeConst(scLE(got), lm1Str), "core: result < l (canonical)")
 }
 func ReplayScAdd() {
 	var s, a, c [32]byte
